@@ -446,13 +446,17 @@ impl State {
         let (write, path) = open_log_file(&self.config, Some(&infix))?;
         let roll_state = RollState::new(rotate_config.criterion, self.config.append, &path)?;
         let o_cleanup_thread_handle = if rotate_config.cleanup.do_cleanup() {
+            // the output file is open: a problem with old files must not keep us from logging
             list_and_cleanup::remove_or_compress_too_old_logfiles(
                 None,
                 &rotate_config.cleanup,
                 &self.config.file_spec,
                 &naming_state.infix_filter(),
                 rotate_config.naming.writes_direct(),
-            )?;
+            )
+            .unwrap_or_else(|e| {
+                eprint_err(ErrorCode::LogFile, "cleaning up old log files failed", &e);
+            });
             if cleanup_in_background_thread {
                 Some(list_and_cleanup::start_cleanup_thread(
                     rotate_config.cleanup,
